@@ -55,6 +55,11 @@ func ruleFuncValuesOfCorrectType(observers *Events, addError AddErrFunc, disable
 		case ast.IntValue:
 			if !value.Definition.OneOf("Int", "Float", "ID") {
 				unexpectedTypeMessage(addError, value)
+			} else if value.Definition.Name == "Int" && err == nil {
+				// literal fits in 64 bits (otherwise already reported above) but Int is 32-bit signed
+				if _, err := strconv.ParseInt(value.Raw, 10, 32); err != nil {
+					unexpectedTypeMessage(addError, value)
+				}
 			}
 
 		case ast.FloatValue:
